@@ -1,7 +1,7 @@
 """Configuration of ./check for C18 (see tools/props.py)."""
 ENTRY = {'coq_dir': 'C18',
  'harness': 'c18',
- 'cases': {'quick': 15000, 'thorough': 400000},
+ 'cases': {'quick': 15000, 'thorough': 250000},
  'consts': ['MAX_INLINE_KEY_LENGTH',
             'MULTIHASH_IDENTITY_CODE',
             'PEER_ID_MULTIHASH_SIZE',
